@@ -137,6 +137,15 @@ def single_op_programs(rng):
                 p['steps'] = [{'op': 'ew', 'fn': 'expit', 'a': 0}, {'op': 'ew', 'fn': fn, 'a': 1}]
                 p['out'] = 2
             progs.append(p)
+    # broadcasting assignments into a 2-D buffer: buf[0:2, :] = x (vector over rows), buf[:, 1] = x[0] (scalar over a column)
+    progs.append({'inputs': [[3]], 'steps': [{'op': 'zeros', 'shape': [2, 3], 'like': 0}, {'op': 'setbc', 'buf': 1, 'val': 0, 'mode': 'rows'},
+                                              {'op': 'ew', 'fn': 'pow2', 'a': 1}], 'out': 2, 'out_shape': [2, 3]})
+    progs.append({'inputs': [[3]], 'steps': [{'op': 'zeros', 'shape': [2, 3], 'like': 0}, {'op': 'setbc', 'buf': 1, 'val': 0, 'mode': 'rows'},
+                                              {'op': 'getitem', 'a': 0, 'idx': [0], 'bare': False},
+                                              {'op': 'setbc', 'buf': 1, 'val': 2, 'mode': 'col', 'k': 1}, {'op': 'ew', 'fn': 'sin', 'a': 1}],
+                  'out': 3, 'out_shape': [2, 3]})
+    for ax_shape, ax in [((3,), 0), ((2, 3), 0), ((2, 3), 1), ((3, 2), -2), ((2, 2), -1)]:
+        progs.append({'inputs': [list(ax_shape)], 'steps': [{'op': 'fftfilter', 'a': 0, 'axis': ax}], 'out': 1, 'out_shape': list(ax_shape)})
     for k in ['bin', 'binc', 'getitem', 'sum', 'transpose', 'reshape', 'dot', 'dotc', 'outer', 'prod', 'buffer']:
         for rep in range(6):
             shapes = [rng.choice([(2,), (3,), (2, 2), (2, 3)])]
